@@ -111,6 +111,7 @@ namespace {
          return Value{index};
       }
 
+      bool with_init = true;        // replay: yes; recorded traces: no (see IprScopesTrace)
       Value decl_obs(const ipr::Decl& d, long index)
       {
          auto o = Value::object();
@@ -123,6 +124,13 @@ namespace {
             return a;
          }));
          o.set("pos", guarded([&] { return position_of(d, index); }));
+         if (with_init) o.set("init", guarded([&] {
+            auto a = dynamic_cast<const ipr::Alias*>(&d);
+            if (a == nullptr) return Value{0};
+            auto& e = a->initializer().get();
+            for (std::size_t k = 1; k < inits.size(); ++k) if (inits[k] == &e) return Value{static_cast<long>(k)};
+            return Value{-2};
+         }));
          return o;
       }
 
@@ -204,7 +212,7 @@ namespace {
       auto& gd = got.at("decls");
       if (ed.size() != gd.size()) return "decls";
       for (std::size_t k = 0; k < ed.size(); ++k)
-         for (auto f : {"n", "t", "master", "declset", "pos"})
+         for (auto f : {"n", "t", "master", "declset", "pos", "init"})
             if (not vj::equal(ed.at(k).at(f), gd.at(k).at(f))) return f;
       return "other";
    }
@@ -290,6 +298,7 @@ namespace {
       for (int run = 0; run < runs; ++run) {
          std::cout << "{\"k\":\"reset\",\"s\":0,\"n\":0,\"t\":0,\"r\":0}\n";
          Stage st { nn, nt };
+         st.with_init = false;
          std::map<std::pair<int, int>, std::string> kind_of[3];      // (n,t) -> kind, per hetero scope
          std::set<int> used[6];
          for (int k = 0; k < len; ++k) {
